@@ -91,7 +91,7 @@ func runC19Keys(c C19Keys, info *kit.Info) *kit.Finding {
 }
 
 func TestC19_KeyList(t *testing.T) {
-	p := kit.Prop[C19Keys]{ID: "C19", Name: "KeyList", Quick: 40, Thorough: 2000, Gen: genC19Keys, Run: runC19Keys, Journal: true}
+	p := kit.Prop[C19Keys]{ID: "C19", Name: "KeyList", Quick: 120, Thorough: 6000, Gen: genC19Keys, Run: runC19Keys, Journal: true}
 	p.Execute(t)
 }
 
@@ -156,7 +156,7 @@ func runC19Cache(c C19Cache, info *kit.Info) *kit.Finding {
 }
 
 func TestC19_ReplayCache(t *testing.T) {
-	p := kit.Prop[C19Cache]{ID: "C19", Name: "ReplayCache", Quick: 60, Thorough: 3000, Gen: genC19Cache, Run: runC19Cache, Journal: true}
+	p := kit.Prop[C19Cache]{ID: "C19", Name: "ReplayCache", Quick: 200, Thorough: 10000, Gen: genC19Cache, Run: runC19Cache, Journal: true}
 	p.Execute(t)
 }
 
@@ -267,30 +267,30 @@ func runC19NAT(c C19NAT, info *kit.Info) *kit.Finding {
 }
 
 func TestC19_NAT(t *testing.T) {
-	p := kit.Prop[C19NAT]{ID: "C19", Name: "NAT", Quick: 16, Thorough: 600, Gen: genC19NAT, Run: runC19NAT, Journal: true}
+	p := kit.Prop[C19NAT]{ID: "C19", Name: "NAT", Quick: 32, Thorough: 1600, Gen: genC19NAT, Run: runC19NAT, Journal: true}
 	p.Execute(t)
 }
 
 // ---- shared listeners and collectors: the concurrent workloads of C12/C13/C17 under -race ----
 
 func TestC19_Listeners(t *testing.T) {
-	p := kit.Prop[C13Case]{ID: "C19", Name: "Listeners", Quick: 24, Thorough: 1500, Gen: func(t *rapid.T) C13Case { c := genC13(t); c.Reps = 5; return c }, Run: runC13, Journal: true}
+	p := kit.Prop[C13Case]{ID: "C19", Name: "Listeners", Quick: 80, Thorough: 5000, Gen: func(t *rapid.T) C13Case { c := genC13(t); c.Reps = 5; return c }, Run: runC13, Journal: true}
 	p.Execute(t)
 }
 
 func TestC19_SharedDelivery(t *testing.T) {
-	p := kit.Prop[C12Case]{ID: "C19", Name: "SharedDelivery", Quick: 24, Thorough: 1500, Gen: func(t *rapid.T) C12Case { return genC12(rapid.Bool().Draw(t, "packet"), 20)(t) }, Run: runC12Once, Journal: true}
+	p := kit.Prop[C12Case]{ID: "C19", Name: "SharedDelivery", Quick: 80, Thorough: 5000, Gen: func(t *rapid.T) C12Case { return genC12(rapid.Bool().Draw(t, "packet"), 20)(t) }, Run: runC12Once, Journal: true}
 	p.Execute(t)
 }
 
 func TestC19_Collectors(t *testing.T) {
-	p := kit.Prop[C17Conc]{ID: "C19", Name: "Collectors", Quick: 16, Thorough: 800, Gen: func(t *rapid.T) C17Conc { c := genC17Conc(t); c.Ops = min(c.Ops, 120); return c }, Run: runC17Conc, Journal: true}
+	p := kit.Prop[C17Conc]{ID: "C19", Name: "Collectors", Quick: 40, Thorough: 3000, Gen: func(t *rapid.T) C17Conc { c := genC17Conc(t); c.Ops = min(c.Ops, 120); return c }, Run: runC17Conc, Journal: true}
 	p.Execute(t)
 }
 
 // TCP service end to end under -race: concurrent connections of every outcome (C15's workload).
 func TestC19_TCPService(t *testing.T) {
-	p := kit.Prop[C15Case]{ID: "C19", Name: "TCPService", Quick: 16, Thorough: 800, Gen: genC15(12), Run: runC15, Journal: true}
+	p := kit.Prop[C15Case]{ID: "C19", Name: "TCPService", Quick: 40, Thorough: 3000, Gen: genC15(12), Run: runC15, Journal: true}
 	p.Execute(t)
 }
 
